@@ -207,16 +207,24 @@ def check_state(acc, state, window):
             acc.violation("chroma-ge-raw", site2, case, observed={"frame": i, "tp": tp[i], "tp_chroma": tpc[i]},
                           expected="TP_chroma >= TP")
             return
-    # ---- the 14 scores are the documented formulas of these counts
-    acc.conform += 1
-    want = S.scores_from_counts([int(v) for v in tp], n_ref, n_est) + \
-        S.scores_from_counts([int(v) for v in tpc], n_ref, n_est)
-    for k, w in zip(KEYS, want):
-        if not (abs(got[k] - float(w)) <= 1e-9):
-            acc.violation("scores-from-counts", SITE, case, observed={k: got[k]},
-                          expected={k: float(w), "tp": tp, "tp_chroma": tpc, "n_ref": n_ref, "n_est": n_est,
-                                    "aligned_estimate": [list(f) for f in aligned]})
+    # ---- the resampling sentence, through metrics() itself: scoring the estimate on its own time base must equal
+    #      scoring the MODEL-resampled estimate (nearest estimate frame, empty outside the range) given on the
+    #      reference time base.  Both sides are the library's own formulas, so only the alignment is decided here.
+    if not same:
+        acc.conform += 1
+        acc.transitions += 1
+        st2 = ((tuple(rt), tuple(tuple(f) for f in rf)), (tuple(rt), tuple(tuple(f) for f in aligned)))
+        try:
+            got2 = M.metrics(*T.build(st2), **({} if window == S.WINDOW else {"window": window}))
+            got2 = dict(zip(KEYS, [float(v) for v in got2]))
+        except Exception as ex:  # noqa
+            acc.violation("no-raise", SITE, case, observed="aligned input raised %s: %s" % (type(ex).__name__, ex))
             return
+        for k in KEYS:
+            if not (abs(got[k] - got2[k]) <= 1e-12):
+                acc.violation("resampled-to-nearest-frame", SITE, case, observed={k: [got[k], got2[k]]},
+                              expected={"aligned_estimate": [list(f) for f in aligned]})
+                return
 
 
 def shard_accounting(arg):
@@ -338,7 +346,9 @@ def run(run):
         "defined by the documentation) and all times are dyadic, so midpoints are exact in binary64",
         "pitch distances are exact on the octaves of 440 Hz (distance exactly 12 = window 12.0 in thorough) and "
         ">= 0.0099 semitone away from every window otherwise (counter near_threshold_excluded must stay 0)",
-        "clause scores-from-counts ties metrics() to compute_num_true_positives: the 14 scores must equal the "
+        "clause resampled-to-nearest-frame: metrics() on differing time bases must equal metrics() on the "
+        "model-resampled estimate given on the reference time base (formulas are not fixed by C18, only the alignment); "
+        "[historical note] an earlier clause scores-from-counts also demanded that the 14 scores equal the "
         "documented formulas (compute_accuracy / compute_err_score docstrings, Bay et al. 2009) of the library's own "
         "per-frame counts on the reference frames and the nearest-neighbour-aligned estimate frames",
     ]
